@@ -26,7 +26,7 @@ def run(module, cfg=None, workers=16, dump=False, timeout=1200, env=None, tag=No
                 txt += '\nCONSTANT %s = %s\n' % (k, v)
         cfgpath = os.path.join(rundir, 'derived.cfg')
         open(cfgpath, 'w').write(txt)
-    cmd = ['java', '-XX:+UseParallelGC', '-Xmx' + heap]
+    cmd = ['java', '-XX:+UseParallelGC', '-Xmx' + heap, '-Xss256m']
     if dfs:
         cmd.append('-Dtlc2.tool.queue.IStateQueue=StateDeque')
     cmd += ['-cp', JAR, 'tlc2.TLC', '-workers', str(workers), '-metadir', os.path.join(rundir, 'meta'),
